@@ -51,15 +51,7 @@ class Project(object):
                 modules.add(package.partition('.')[0])
 
         if root:
-            # children of the package the import system would load; the whole
-            # path only for namespace packages and unknown names
-            filename, _ = self._find_module(root)
-            if filename and os.path.basename(filename) == '__init__.py':
-                dirs = [os.path.dirname(filename)]
-            elif filename:
-                dirs = []
-            else:
-                dirs = [os.path.join(p, *root.split('.')) for p in path]
+            dirs = self._package_dirs(root)
         else:
             dirs = path
 
@@ -82,6 +74,24 @@ class Project(object):
                         modules.add(name)
 
         return modules
+
+    def _package_dirs(self, name):
+        # type: (str) -> list[str]
+        # directories holding the children the import system can load for
+        # `name`: the directory of a regular package, every portion of a
+        # namespace package, nothing for a plain module or a missing name
+        dirs = self.get_path()
+        for part in name.split('.'):
+            portions = []  # type: list[str]
+            for d in dirs:
+                found = self._probe(d, part)
+                if found:
+                    portions = [found[2]] if found[2] else []
+                    break
+                if os.path.isdir(os.path.join(d, part)):
+                    portions.append(os.path.join(d, part))
+            dirs = portions
+        return dirs
 
     @contextmanager
     def check_changes(self):
